@@ -262,6 +262,7 @@ func resolveGuards(fn string, fg *fnGuards) {
 }
 
 type fnGuards struct {
+	pkg   string // short package name
 	fn    string
 	recs  []*guardRec
 	note  string
